@@ -1,4 +1,5 @@
 import Dbus.Model.Bus.Table
+import Dbus.Model.Bus.Raw
 import Driver.Wire
 /- driver commands for the message-bus model -/
 open Dbus Dbus.Spec Dbus.Model Dbus.Model.Bus
@@ -6,6 +7,7 @@ open Dbus Dbus.Spec Dbus.Model Dbus.Model.Bus
 structure BusState where
   bus : Bus := {}
   maxMsg : Nat := MAX_MESSAGE_LENGTH
+  loaders : List (Nat × Loader) := []
 
 def showOut : Out → String
   | .deliver to m => s!"D {to} {showMsgX m 0}"
@@ -65,6 +67,17 @@ def busCmd (st : BusState) (toks : List String) : BusState × String :=
         ({ st with bus := t.bus }, showTx t)
       | .incomplete => (st, "bad-op")
     | _, _ => (st, "bad-op")
+  | ["raw", c, hex] =>
+    match c.toNat?, ofHex hex with
+    | some c, some bs =>
+      let n : Net := { bus := st.bus, loaders := st.loaders, maxMsg := st.maxMsg }
+      let (n', txs) := netStep driverTable n (.write c bs)
+      ({ st with bus := n'.bus, loaders := n'.loaders },
+        if txs.isEmpty then "-" else
+          let parts := (txs.map showTx).filter (· ≠ "-")
+          if parts.isEmpty then "-" else " | ".intercalate parts)
+    | _, _ => (st, "bad-op")
+  | ["nop"] => (st, "-")
   | ["close", c] =>
     match c.toNat? with
     | some c =>
